@@ -80,6 +80,19 @@ def acceptor_reopen_rule(run):
         ok = bool(cl) and bool(so) and q.on_all_paths(f, so) and not q.exit_reachable_under(f, None, cl, open_state) and all(q.precedes(f, c_, s_) or not q.precedes(f, s_, c_) for c_ in cl for s_ in so)
         run.check(ok, 'R7', 'reopen-closes-acceptor', f.norm + f.sig, f.loc(),
                   'acceptor::open() re-opens an open acceptor without closing it as an acceptor first', 'an open acceptor is closed with acceptor::close() before the socket is re-opened')
+        # a closed acceptor may still carry listen state (the defaulted move constructor copies m_queue_size_limit, so the
+        # moved-from object keeps it): open() starts every acceptor in the not-listening state, on every path
+        lim = []
+        for a in q.field_accesses(f, {A + '::m_queue_size_limit'}):
+            if a.kind == 'assign' and is_node(a.site):
+                rhs = a.site.get('rhs') if a.site['k'] == 'bin' else (a.site.get('args') or [None, None])[1]
+                v = q.const_eval(f, rhs, lambda t: None) if is_node(rhs) else None
+                if isinstance(v, int) and v <= 0:
+                    lim.append(a.site)
+        lim += [c for c in cl if not q.guards_at(f, c)]
+        run.check(bool(lim) and q.on_all_paths(f, lim), 'R7', 'reopen-not-listening', f.norm + f.sig, f.loc(),
+                  'a path through acceptor::open() leaves m_queue_size_limit as it was: an acceptor that was moved from (the defaulted move copies the limit) and is opened and bound again queues incoming connections although listen() was never called on it - the connector hangs instead of being refused',
+                  'the listen limit is reset (or the acceptor closed as an acceptor) on every path')
 
 
 def check(run):
@@ -344,8 +357,16 @@ def check(run):
     run.check(bool(errp) and all(any(q.precedes(caq_, ch_, fw_) and q.paired(caq_, ch_, fw_) for ch_ in chans) for fw_ in fwds), 'R4', 'reset-carries-channel', A + '::check_accept_queue', caq_.loc(),
               'a packet check_accept_queue() sends to a connector does not carry its channel: the connector cannot tell which connect it answers and ignores it', 'every packet sent to a connector has p.channel set')
     run.clause('close(ec) ends listening: the listen limit has a closed writer set and is reset on every path of acceptor::close(ec)')
-    engines.r2_writer_table(run, A + '::m_queue_size_limit', {A + '::acceptor': 'constructed not listening', A + '::listen': 'starts listening', A + '::close': 'stops listening'},
+    engines.r2_writer_table(run, A + '::m_queue_size_limit', {A + '::acceptor': 'constructed not listening', A + '::listen': 'starts listening', A + '::close': 'stops listening', A + '::open': 'a (re-)opened acceptor is not listening'},
                             required=[A + '::listen', A + '::close'])
+    for g in fx.repo_functions():        # only listen() makes the acceptor listen: every other writer stores a non-positive constant
+        if g.cfg is None or q.top_function(fx, g).norm == A + '::listen':
+            continue
+        for a in q.field_accesses(g, {A + '::m_queue_size_limit'}):
+            if a.kind == 'assign' and is_node(a.site) and a.site['k'] == 'bin':
+                v = q.const_eval(g, a.site['rhs'], lambda t: None)
+                run.check(isinstance(v, int) and not isinstance(v, bool) and v <= 0, 'R7', 'only-listen-listens', g.norm, g.loc(a.site),
+                          '%s stores %s in m_queue_size_limit: the acceptor starts queueing connections without listen() having been called' % (g.norm.split('::')[-1], q.render(g, a.site['rhs'])), 'stores a non-positive constant')
     cl = fx.fn1(A + '::close', '(boost::system::error_code &)')
     run.touch(cl)
     w = [a for a in q.field_accesses(cl, {A + '::m_queue_size_limit'}) if a.kind == 'assign']
